@@ -437,6 +437,15 @@ func handleViolation(t *testing.T, p *Prop, sc Scenario, runSeed uint64, res *Ru
 	path := filepath.Join(replayDir, fmt.Sprintf("%s-%d-%s.json", p.ID, runSeed, hex.EncodeToString(h[:4])))
 	must(os.MkdirAll(replayDir, 0755))
 	must(os.WriteFile(path, b, 0644))
+	// the run as found, un-minimised: minimisation re-runs in this process, and a
+	// shrunk case that only fails because of state earlier runs left in the
+	// process does not fail in a fresh one; the driver then falls back to this
+	if orig, _ := rerun(t, p, cloneScenario(p, sc), res.Trace, false, true); orig.Class == res.Class {
+		oj, _ := json.Marshal(sc)
+		ob, _ := json.MarshalIndent(ReplayFile{Property: p.ID, Seed: runSeed, Class: orig.Class, Message: orig.Message,
+			Scenario: oj, Decisions: orig.Trace, Steps: orig.Steps, Minimised: false}, "", " ")
+		must(os.WriteFile(strings.TrimSuffix(path, ".json")+".orig.json", ob, 0644))
+	}
 	st.Violations = append(st.Violations, path)
 	st.ViolationMsgs = append(st.ViolationMsgs, fin.Class+": "+trunc(fin.Message, 600))
 }
